@@ -90,6 +90,11 @@ func process1MapReplace(obj map[string]any, mergeFrom *Document, mergeFromDocs [
 		return nil, err
 	}
 
+	next, err = deepClone(next)
+	if err != nil {
+		return nil, err
+	}
+
 	return process1(next, mergeFrom, mergeFromDocs, depth)
 }
 
@@ -165,6 +170,11 @@ func process1ListReplace(obj []any, mergeFrom *Document, mergeFromDocs []*Docume
 		return nil, err
 	}
 
+	next, err = deepClone(next)
+	if err != nil {
+		return nil, err
+	}
+
 	return process1(next, mergeFrom, mergeFromDocs, depth)
 }
 
@@ -188,6 +198,11 @@ func process1StringMerge(obj string, mergeFrom *Document, mergeFromDocs []*Docum
 		return nil, err
 	}
 
+	in, err = deepClone(in)
+	if err != nil {
+		return nil, err
+	}
+
 	return process1(in, mergeFrom, mergeFromDocs, depth)
 }
 
@@ -195,6 +210,11 @@ func process1StringReplace(obj string, mergeFrom *Document, mergeFromDocs []*Doc
 	path := strings.TrimPrefix(obj, "$replace:")
 
 	in, err := get(mergeFrom, mergeFromDocs, path)
+	if err != nil {
+		return nil, err
+	}
+
+	in, err = deepClone(in)
 	if err != nil {
 		return nil, err
 	}
